@@ -1,3 +1,74 @@
+/*
+ * wgl.h — exact Wing-Gong-Lowe linearizability checker with memoisation over
+ * (linearised-set bitmask, model state). Uninstrumented. Histories are small
+ * (<= 30 operations); node identities are unique small integers.
+ */
 #ifndef SCEN_WGL_H
 #define SCEN_WGL_H
+#include <stdint.h>
+
+#define WGL_MAXOPS 48
+#define WGL_MAXLIST 24
+
+enum wgl_model { WGL_FIFO, WGL_LIFO, WGL_SET };
+
+enum wgl_kind {
+	/* FIFO (two queues, index 0/1) */
+	WQ_ENQ,		/* a=queue, b=id, r=was_non_empty (or -1: unchecked) */
+	WQ_DEQ,		/* a=queue, r=id or -1 (empty) */
+	WQ_EMPTY,	/* a=queue, r=0/1 */
+	WQ_SPLICE_DRAIN,/* a=src queue, b=temp slot */
+	WQ_SPLICE_APPEND,/* a=dst queue, b=temp slot, r=0 src empty, 1 dest was empty, 2 dest non-empty; after=index of the drain op */
+	WQ_ITER,	/* a=queue, list=content */
+	/* LIFO (one stack) */
+	WS_PUSH,	/* b=id, r=was_non_empty (or -1 unchecked) */
+	WS_POP,		/* r=id or -1 ; r2 = 1 if reported LAST (stack became empty), 0 not, -1 unchecked */
+	WS_POP_ALL,	/* list=content top first */
+	WS_EMPTY,	/* r=0/1 */
+	/* SET of node ids for one hash-table key (multiset per key) */
+	WH_ADD,		/* b=id */
+	WH_ADD_UNIQUE,	/* b=id, r=id returned (b if inserted, else an existing one) */
+	WH_ADD_REPLACE,	/* b=id, r=replaced id or -1 */
+	WH_REPLACE,	/* a=old id, b=new id, r=0 ok / 1 failed */
+	WH_DEL,		/* b=id, r=0 ok / 1 failed */
+	WH_LOOKUP,	/* r=id found or -1 */
+	WH_WALK,	/* list=all duplicates returned by lookup+next_duplicate: must equal the set at one instant */
+	WH_ABSENT_OK,	/* no-op */
+};
+
+struct wgl_op {
+	uint64_t inv, ret;	/* global sequence numbers */
+	int kind;
+	int a, b;
+	long r, r2;
+	int after;		/* -1, or index of an op that must be linearised before this one */
+	int thread;
+	int nlist;
+	uint8_t list[WGL_MAXLIST];
+};
+
+struct wgl_hist {
+	int model;
+	int n;
+	struct wgl_op ops[WGL_MAXOPS];
+	uint64_t states_explored;
+};
+
+void wgl_init(struct wgl_hist *h, int model);
+/* begin an operation: returns its index; inv is taken now */
+int wgl_begin(struct wgl_hist *h, int kind, int a, int b);
+/* end an operation: ret is taken now */
+void wgl_end(struct wgl_hist *h, int idx, long r);
+void wgl_end2(struct wgl_hist *h, int idx, long r, long r2);
+void wgl_list_add(struct wgl_hist *h, int idx, int id);
+void wgl_set_after(struct wgl_hist *h, int idx, int after);
+/* drop an op that turned out to be a no-op (e.g. WOULDBLOCK) */
+void wgl_cancel(struct wgl_hist *h, int idx);
+/* initial content for the model (ids present before the history starts) */
+void wgl_initial_add(struct wgl_hist *h, int a, int id);
+/* 1 = linearizable, 0 = not. On 0, `why` (if non-NULL) gets a description. */
+int wgl_check(struct wgl_hist *h, char *why, int whylen);
+/* true if at least two operations of different threads overlap */
+int wgl_has_overlap(const struct wgl_hist *h);
+int wgl_full(const struct wgl_hist *h);
 #endif
